@@ -180,8 +180,16 @@ def run(tier, seed, verdict):
         open_run = runner.ExportRun("MC_NixOpen", "MC_C11_open.cfg", seed, "harness.c11", label=label, batch=60)
         sruns, sres = session_runs(tier, seed, "ro", tmp,
                                    SESSION_CFGS_QUICK if quick else SESSION_CFGS_THOROUGH)
+        from . import c05
+        mods = [("array", "MC_NixArray", "MC_C01_quick.cfg", 8 if quick else 2, {}),
+                ("meta", "MC_NixMeta", "MC_C10_quick.cfg", 20 if quick else 4, {}),
+                ("frame", "MC_NixFrame", "MC_C16_quick.cfg", 30 if quick else 6, {}),
+                ("dimlink", "MC_NixDimLink", "MC_C05_dims_quick.cfg", 12 if quick else 3, {"ranks": c05.RANKS})]
+        mruns = [runner.ExportRun(tla, cfg, seed, "harness.romut", opts=dict(extra, module=m), stride=st,
+                                  label=lambda tx, m=m: "ro_%s/%s:%s" % (m, tx["act"]["name"], tx["act"].get("out", "ok")))
+                 for m, tla, cfg, st, extra in mods]
         level, cov, assumptions = runner.assemble(
-            "C11", verdict, [open_run] + sruns,
+            "C11", verdict, [open_run] + sruns + mruns,
             owns=lambda f: f.get("owner", "C11") == "C11",
             rule="(1) every header on a grid of 36 version triples around the library's x format tag nix / other / "
                  "missing x id valid / invalid / missing, and a missing file, x three open modes: File.open outcome "
@@ -189,7 +197,10 @@ def run(tier, seed, verdict):
                  "every non-truncating open (accepted or refused); (2) read-only sessions at the points TLC's session "
                  "model places them in write histories of the entity-graph model: the transition's own mutator is "
                  "attempted read-only and must raise iff it changes the state in a writable session, the session's "
-                 "projection must equal the writable one's, sha256 of the file must not change",
+                 "projection must equal the writable one's, sha256 of the file must not change; (3) the mutators of the "
+                 "array, metadata, data-frame and dimension-link models (writes, appends, resizes, value assignments, column / "
+                 "row / cell writes, descriptor and link changes) attempted in a read-only session after their history: must "
+                 "raise iff the specification says the call changes the state; bytes unchanged",
             assumptions=["files without a version attribute are left open (TypeError today)",
                          "which error class a refused open raises is compared by family (InvalidFile for a foreign "
                          "format tag, RuntimeError otherwise)",
@@ -197,7 +208,7 @@ def run(tier, seed, verdict):
             tlc_props=["WritableImpliesReadable", "OverwriteEmpties", "OthersKeep", "CreateOnlyIfMissing", "MinorMonotone",
                        "ForeignRefused", "ReadOnlyNeverChanges", "ReadOnlySeesDisk", "OpenShowsDisk"],
             need=("ro/opened", "ro/version", "rw/version", "rw/opened", "ow/fresh", "ro/missing", "rw/fresh", "ro/invalid",
-                  "ro/noid", "attempts", "ro_sessions"),
+                  "ro/noid", "attempts", "ro_sessions", "must_fail"),
             extra={"session_schedules": sum(r.nschedules for r in sruns),
                    "session_model_states": sum(r.distinct for r in sres)})
     return level, cov, assumptions
